@@ -227,3 +227,16 @@ fn k_rings_closed_means_equal_in_every_coordinate() {
     kani::cover!(already_closed);
     kani::cover!(!already_closed);
 }
+
+/// C16 (bounded, cheap companion of the harness above: no orientation arithmetic): a multipatch ring whose last vertex
+/// equals the first in X and Y but not in Z is open, and the constructor appends a copy of the first vertex
+#[kani::proof]
+#[kani::unwind(8)]
+fn k_rings_multipatch_ramp_is_closed() {
+    let first = PointZ::new(0.0, 0.0, 1.0, 2.0);
+    let ring = vec![first, PointZ::new(8.0, 9.0, 1.0, 2.0), PointZ::new(8.0, 0.0, 1.0, 2.0), PointZ::new(0.0, 0.0, 7.0, 2.0)];
+    let mp = Multipatch::with_parts(vec![Patch::Ring(ring)]);
+    let q = mp.patches()[0].points();
+    assert!(q.len() == 5);
+    assert!(q[0] == q[4]);
+}
